@@ -19,7 +19,7 @@ func init() {
 		Explanation: "Decides the structural causes of races, not their absence in general: R1 effect analysis: over everything reachable from the Transaction API (VTA call graph) no store, map update, delete or append writes memory whose access path goes through a shared object (WAF, Rule, RuleGroup, operator/action/writer/formatter/body-processor structs, package variables), " +
 			"per-transaction copies of rule data are made fresh before being appended to (path query with infeasible-branch pruning), reference-typed transaction fields that alias WAF storage are never written through, and the lazy audit-writer initialisation is dead for WAFs built by coraza.NewWAF; " +
 			"R2 guarded-by table: every access to the process-wide tables (memoize entries, random source, transformation-id tables, concurrent audit index) happens with the associated lock held, writes exclusively; R3 no lock is acquired while another module lock is held (lock-order graph has no edge, hence no cycle); " +
-			"R4 the transaction pool is only used by newTransaction (Get) and Close (deferred Put); R2 also: no mutex is locked through a by-value copy of the struct that holds it; R5 a value derived from an object by appending to one of its slices (a logger with more context, an event, a copied list) never grows into the parent's spare capacity: the source is clipped or cloned first; R6 a goroutine the library starts itself is given no transaction state (arguments and captures) and can complete each of its sends without a receiver when its starter may stop waiting.",
+			"R4 the transaction pool is only used by newTransaction (Get) and Close (deferred Put); R2 also: no mutex is locked through a by-value copy of the struct that holds it; R5 a value derived from an object by appending to one of its slices (a logger with more context, an event, a copied list) never grows into the parent's spare capacity: the source is clipped or cloned first; R6 a goroutine the library starts itself is given no transaction state (arguments and captures) and can complete each of its sends without a receiver when its starter may stop waiting. R2 also: the debug log output shared by all transactions is written only through its log.Logger wrapper or under a lock of the module.",
 		NotDecided: []string{
 			"absence of data races in general (needs a happens-before argument over schedules)",
 			"deadlock freedom beyond the module's own locks",
@@ -211,6 +211,50 @@ func runC06(c *an.Ctx) {
 
 	// ---- R6 goroutines started by the library.
 	c06Goroutines(c)
+
+	// ---- R2 (cont.) the debug log's output is shared by every transaction of the WAF.
+	c06SharedSink(c)
+}
+
+// c06SharedSink: every transaction's logger is derived from the WAF's and writes to the io.Writer the user gave
+// (SecDebugLog, WithOutput).  The only thing that serialises those writes is the log.Logger the default printer
+// wraps the writer in (its mutex makes one record one Write at a time).  Writing to the io.Writer directly
+// (fmt.Fprintf, io.WriteString, w.Write) from the logging path, outside a lock of the module, lets concurrent
+// transactions interleave records and race on writers that are not goroutine-safe (bytes.Buffer, bufio.Writer).
+func c06SharedSink(c *an.Ctx) {
+	n, nLogger := 0, 0
+	for _, fn := range c.P.ModFuncs {
+		if relPkg(fn) != "debuglog" {
+			continue
+		}
+		an.Instrs(fn, func(in ssa.Instruction) {
+			cc := an.CallOf(in)
+			if cc == nil {
+				return
+			}
+			direct := ""
+			if cc.IsInvoke() && cc.Method.Name() == "Write" && strings.HasSuffix(cc.Value.Type().String(), "io.Writer") {
+				direct = "Write on the io.Writer"
+			} else if sc := cc.StaticCallee(); sc != nil && sc.Pkg != nil {
+				full := sc.Pkg.Pkg.Path() + "." + sc.Name()
+				switch full {
+				case "fmt.Fprintf", "fmt.Fprint", "fmt.Fprintln", "io.WriteString":
+					if len(cc.Args) > 0 && !strings.Contains(an.Expr(cc.Args[0]), "os.Std") {
+						direct = full
+					}
+				case "log.New":
+					nLogger++
+				}
+			}
+			if direct == "" {
+				return
+			}
+			n++
+			key := fmt.Sprintf("debug log sink written through its serialising logger in %s #%d", an.RelName(fn), n)
+			c.Check(lockProtected(fn, in), "R2", key, in.Pos(), "under a lock of the module", direct+" writes to the debug log's shared io.Writer without the log.Logger (or a lock) in between: records of concurrent transactions interleave, and a writer that is not goroutine-safe is raced on")
+		})
+	}
+	c.MinCount("R2", "log.Logger wrappers of the debug log output", nLogger, 1)
 }
 
 // c06Goroutines: a transaction belongs to the goroutine that drives it and goes back to the pool
